@@ -21,19 +21,19 @@ func init() {
 
 type codecFn struct {
 	fn    *ssa.Function
-	tag   ssa.Value            // the switched value
-	cases map[int64][]string   // codec constant -> library calls on that case
+	tag   ssa.Value          // the switched value
+	cases map[int64][]string // codec constant -> library calls on that case
 	blks  map[int64]*ssa.BasicBlock
 }
 
 var codecLib = map[string]string{
-	"github.com/golang/snappy.Encode":  "snappy+",
-	"github.com/golang/snappy.Decode":  "snappy-",
-	"compress/gzip.NewWriterLevel":     "gzip+",
-	"compress/gzip.NewWriter":          "gzip+",
-	"compress/gzip.NewReader":          "gzip-",
-	"compress/flate.NewWriter":         "flate+",
-	"compress/flate.NewReader":         "flate-",
+	"github.com/golang/snappy.Encode": "snappy+",
+	"github.com/golang/snappy.Decode": "snappy-",
+	"compress/gzip.NewWriterLevel":    "gzip+",
+	"compress/gzip.NewWriter":         "gzip+",
+	"compress/gzip.NewReader":         "gzip-",
+	"compress/flate.NewWriter":        "flate+",
+	"compress/flate.NewReader":        "flate-",
 }
 
 // codecSwitches: functions of the runtime that compare a CompressionCodec value with >= 2 constants.
@@ -385,7 +385,7 @@ func checkC04(c *Ctx) {
 	laLEB(c)
 	laOrder(c, "LA-order")
 	_, t, _ := srcAnalysis(c)
-	runSR(c.U, r, t)
+	runSR(c.U, r, t, func(f *ssa.Function) bool { return !c.U.isCtl(f) })
 	r.assume("value-level decoding correctness (levels, runs, PLAIN values, page chains) is NOT decided by this check")
 }
 
